@@ -148,6 +148,7 @@ def run(ctx):
         elayouts = ["scattered", "mono", "blocks-8192", "blocks-small", "sorted"]
         plan = [(sz, cp, "scattered") for cp in comps for sz in SIZES]  # the full cross product, every run
         plan += [(sz, cp, el) for cp in ("valid", "mixed") for sz in (8193, 20000) for el in elayouts[1:]]
+        plan += [(65536, "valid", "scattered"), (65537, "mixed", "scattered"), (131072, "valid", "blocks-small")]  # seams of larger blocks
         while done < npts or bi < len(plan):
             if bi < len(plan):
                 size, comp, elay = plan[bi]
@@ -202,7 +203,7 @@ def run(ctx):
             # the order the simulation uses: exit probability first, then the energy, on the same arrays;
             # the energy of every event must be the one from pristine arrays (the exit-probability step
             # must not leave anything behind that changes which branch an angle takes)
-            if size <= 8193:
+            if size <= 8193 or size >= 65536:
                 try:
                     b1, e1 = b0.copy(), e0.copy()
                     tau.tau_exit_prob(b1, e1)
